@@ -87,7 +87,7 @@ CLAIMED.update({
         'INSIDE the volume (FatVol.ProofsDots): FatPath does not normalise -- "." and ".." are looked up as the dot entries stored in every sub-directory -- and on a '
         'consistent volume that walk over the on-disk records equals the stack walk over the volume\'s own tree (".." pops, "." stays, at the root neither exists), so '
         'whatever the request spells reaches a node of THAT volume\'s tree or nothing (C02_volume_closed); tied to FatPath._resolve by dotted-path probes over grown volumes. '
-        'A reload scenario runs nobodd.server.main with a recording request loop: after the configuration is rewritten and a reload requested the table is the new one.',
+        'A reload scenario runs nobodd.server.main with a recording request loop: after the configuration is rewritten and a reload requested the table is the new one. The per-serial cache of opened volumes is transparent over any request history (Boot/Cache.v); what a dotted path reaches is what its dot-free normal form reaches.',
    note=FAT_NOTE + 'The byte-level reading of the volume is covered by C03 (reader) and the end-to-end oracle; pathlib parsing of the request and ipaddress are CPython. '
         'Found and fixed: str-vs-ipaddress comparison refused every ip= board.',
    design='§7 C02'),
@@ -179,7 +179,7 @@ CLAIMED.update({
    text='Nineteen theorems over a model of prep.rewrite_cmdline (first line, str.split over the full CPython white-space set, root= filter, three prepended parameters), config.serial and '
         'Board.__str__ with a reader specification of the [board:HEX] section: the command line equals an independent relational tokenisation for all texts/hosts/shares/partitions; serial '
         'spellings incl. both prefixes; board text reads back to the same serial, path and partition. Tie: templates, constants, removal order regenerated from the AST; white-space set over all '
-        'code points; rewrite_cmdline on real volumes; oracle over nobodd.prep.main on MBR/GPT x FAT12/16/32 images (removed, copied, untouched files, other partitions, size, emitted board).',
+        'code points; rewrite_cmdline on real volumes; oracle over nobodd.prep.main on MBR/GPT x FAT12/16/32 images (removed, copied, untouched files, other partitions, size, emitted board). Also: detect_partitions (boot = the given or the FIRST partition holding a FAT file system, root = the first neither FAT nor FAT-typed one, the early break harmless, a FAT-typed partition without a file system never chosen; loop regenerated; every report of up to 4 partitions compared with the real function) and the resize block (image grown to max(len, size) with zeros, never shrunk, content in place; config.size with fractions rounded down).',
    note='Trusted: Coq kernel, gen_prep.py, extraction + driver, CPython text layer / configparser / argparse. The file-tree part is oracle-level (rests on C04). The rewrite is proved NOT idempotent (not required). '
         'Found and fixed: nested directory removal order, missing sys import for "-".',
    design='§7 C17'),
@@ -195,7 +195,7 @@ CLAIMED.update({
    technique='Coq proof (fuel induction over an abstract short-reading reader) of copy_bytes exactness and termination + Coq proofs over a tree model of the shell commands (exactness, round trip, frame) + AST expression translation + differential check against the real tool + end-to-end shell oracle with shrinking',
    text='Theorems: for every content, position, range, reader (short reads allowed) and loop variant copy_bytes returns within |content|+2 iterations having written exactly content[start:min(stop,|content|)]; '
         'the single-read fast path yields a non-empty prefix on a short-reading raw source; step != 1 rejected. Tree half (Shell/Model.v: host and partition trees, names folded on partitions, every branch of do_cp/do_mv/do_rm/do_rmdir/do_mkdir/do_touch/do_cat incl. where a multi-source command stops): cp copies exactly the bytes / the merged tree, cp -r in then out returns the original tree, mv moves (same fs = rename, across = copy and remove), rm/rmdir remove exactly what was named, EVERY command whatever its outcome changes only paths at or below those it names, cat = concatenation; tied to sh.py by replaying seeded and adversarial command streams through the real nobodd.sh.main and the extracted model (status class, cat output, all three trees after every command). Shell commands (cp/-r, mv, rm/-r/-f, rmdir, mkdir/-p, touch, cat over host, img:N/ and img:/ paths, '
-        'FAT12/16/32, two partitions, sizes around 64 KiB, ENOSPC) are checked end to end by an oracle: expected in-memory trees vs fresh read-back after every command, exit status, extracted Coq structural check (sampled).',
+        'FAT12/16/32, two partitions, sizes around 64 KiB, ENOSPC) are checked end to end by an oracle: expected in-memory trees vs fresh read-back after every command, exit status, extracted Coq structural check (sampled). Also: a scanner for sh._image_re (which words name something inside an image) with soundness / completeness / host-word theorems, compared exhaustively with the real regular expression; and C19_any_command_keeps_the_volume_consistent: sh.py uses the public path API only (regenerated fact), and any history of path operations, whatever each outcome, keeps the volume invariant (FV_history_inv); a failing mv whose target cannot be created is part of the image-level oracle.',
    note='Proof level for byte copying and for the command semantics over trees; that the IMAGE is structurally consistent after a failing command is oracle-level (the tree model has no clusters), and 8.3 aliases, ENOSPC, timestamps and symlinks are not in the tree model (PARTIAL there). Assumes full reads unless at EOF for the fast path (true for buffered readers). '
         'Found and fixed: divergence past end of source, two FatFileSystem instances per partition (mv lost the file), cp onto itself.',
    design='§7 C19'),
